@@ -103,7 +103,7 @@ PROPS = {
                         "edge history (deletion timestamps) is not compared on crash images: recovery legitimately stamps repaired cascade unlinks with the recovery time"],
     },
     "C03": {
-        "level": "fault_enumeration", "quick": 3000, "thorough": 200000, "batch": 25, "vlimit_kb": 6 * 1024 * 1024,
+        "level": "fault_enumeration", "quick": 3000, "thorough": 200000, "batch": 10, "vlimit_kb": 16 * 1024 * 1024,
         "rule": ("(b, the simulated part) a log of 4-44 commands (SET/DEL with unique values, VCREATE, VADD with and without metadata, GLINK with and "
                  "without properties) is produced by the real engine, then 1-3 byte-level damages (bit flip, overwrite, delete, insert garbage "
                  "that may contain the frame marker and RESP punctuation, truncate) are applied at positions aimed at frame structure (magic, opcode, "
@@ -132,7 +132,7 @@ PROPS = {
         "assumptions": ["decision points exist only at (rewritten) lock operations and file-system calls; code between two such points is atomic to the scheduler"],
     },
     "C13": {
-        "level": "exploration", "quick": 400, "thorough": 30000, "batch": 1, "single_timeout": 150, "race": True, "race_div": 4,
+        "level": "exploration", "quick": 400, "thorough": 30000, "batch": 1, "single_timeout": 150, "race": True, "race_div": 4, "race_free": True, "race_free_gomaxprocs": 4,
         "rule": ("2-4 client tasks (reinforce one shared node, merge distinct metadata keys into it, KV set/get/delete with unique values on 3 keys, "
                  "add/delete own vectors, link/unlink, search, get), an admin task (SaveSnapshot, RewriteAOF, vacuum, refine, compress, index drop/"
                  "create on a second index), an event subscriber with buffer 0-2 that never reads (half of the runs), a task that calls Close (once or "
